@@ -182,7 +182,11 @@ class UTMIHost:
     """
 
     def __init__(self, script, *, byte_period=1, pre=1, post=0, txready="always", gap_pattern=None,
-                 line_idle=0b01, stop_when_done=True, tail=20):
+                 line_idle=0b01, stop_when_done=True, tail=20, idle_data=None):
+        # idle_data: what rx_data shows while rx_valid is low (UTMI leaves it undefined there): None = the last byte is held,
+        # ["const", v] | ["xor", m] (held byte ^ m) | ["list", [b, ...]] (b[t mod len]); a literal from the scenario
+        self.idle_data = idle_data
+        self.idle_data_cycles = 0
         self.byte_period = byte_period          # cycles per received byte (1 = a byte every cycle)
         self.pre = pre                          # cycles of rx_active before the first rx_valid
         self.post = post                        # cycles of rx_active after the last rx_valid
@@ -229,6 +233,20 @@ class UTMIHost:
         d = dict(self._pins)
         d["tx_ready"] = self._ready_bit(t)
         self._ready_now = d["tx_ready"]
+        idd = self.idle_data
+        if idd is not None and not d["rx_valid"]:
+            held = d["rx_data"]
+            if idd[0] == "const":
+                v = idd[1] & 0xFF
+            elif idd[0] == "xor":
+                v = (held ^ idd[1]) & 0xFF
+            elif idd[0] == "list":
+                v = idd[1][t % len(idd[1])] & 0xFF
+            else:
+                raise ValueError(idd)
+            if v != held:
+                self.idle_data_cycles += 1
+            d["rx_data"] = v
         return d
 
     def observe(self, t, o):
